@@ -1,3 +1,4 @@
+import Cutadapt.Generated.C14Tables
 import Cutadapt.Proofs.Poly
 import Cutadapt.ExpectedErrors
 /-! # C14 — poly-A, N-end trimming, N counts and expected errors match their definitions
@@ -363,5 +364,28 @@ example : polyATrimIndex [84, 84, 84, 84, 67] true = 4 := by decide
 example : nEndIndices [78, 78, 65, 78, 67, 78] = (2, 5) := by decide
 example : phreds 33 [73, 33, 126] = some [40, 0, 93] := by decide
 example : phreds 33 [32] = none := by decide
+
+/-! ## `--poly-a`, `--trim-n`, `--max-n` of the real program, alone and next to unrelated options (regenerated on every run) -/
+
+/-- what `--trim-n` keeps, as an interval (an empty result is `(0, 0)`) -/
+def trimNKeptModel (s : Bytes) : Nat × Nat :=
+  let r := nEndIndices s
+  if r.1 ≥ r.2 then (0, 0) else r
+
+/-- `--max-n num/den`: 1 = kept. Below 1 the cutoff is a fraction of the read length (an empty read is kept); the count is of `N` and `n` -/
+def maxNKeptModel (s : Bytes) (num den : Nat) : Nat :=
+  let cnt := nCountBoth s
+  if num < den then (if s.length = 0 then 1 else if cnt * den > num * s.length then 0 else 1)
+  else (if cnt * den > num then 0 else 1)
+
+/-- **`--poly-a`, `--trim-n` and `--max-n` of the real program are the model's `polyATrimIndex`, `nEndIndices` and `nCountBoth` on every probe, and the same whether
+    they stand alone or next to `-O 1`, `-O 10`, `-e 0.5`, `--action=none`, `--action=lowercase`**: tails of 0 … 6 A are removed from three A on (whatever `-O` says), a
+    single base between N runs survives `--trim-n`, lower-case `n` counts for `--max-n` under every action (`polyA_removed`/`polyA_kept`, `trimN_spec`, `nCount_spec` state
+    the definitions for all reads). -/
+theorem generated_c14_tables :
+    (∀ row ∈ Generated.polyAKept, (Generated.polyAProbes[row.2.1]?).map (fun s => polyATrimIndex s false) = some row.2.2) ∧
+    (∀ row ∈ Generated.trimNKept, (Generated.trimNProbes[row.2.1]?).map trimNKeptModel = some (row.2.2.1, row.2.2.2)) ∧
+    (∀ row ∈ Generated.maxNKept, (Generated.maxNProbes[row.2.1]?).map (fun p => maxNKeptModel p.1 p.2.1 p.2.2) = some row.2.2) := by
+  decide
 
 end Cutadapt.C14
